@@ -113,7 +113,7 @@ class RunGroup:
 
     # -- run ---------------------------------------------------------------------------
     def run(self, props, budget, mode="native", only=None, sets=None, nshards=None,
-            timeout=3600, tag=None):
+            timeout=3600, tag=None, case_timeout=None):
         """-> (reports, aborts) ; reports: list of dicts, aborts: list of {case, prop, how, output}"""
         tag = tag or ("%s-%s" % (mode, "_".join(props)))
         out = os.path.join(self.root, "out", tag)
@@ -129,6 +129,8 @@ class RunGroup:
                      "--budget", budget, "--seed", str(self.seed)]
         for k, v in (sets or {}).items():
             base_args += ["--set", "%s=%s" % (k, v)]
+        if case_timeout:
+            base_args += ["--case-timeout", str(case_timeout)]
         env = build.base_env()
         if mode == "native":
             prefix = [self.binary()]
@@ -224,6 +226,8 @@ class RunGroup:
 
 
 def classify_abort(rc: int, text: str) -> str:
+    if "CASE-TIMEOUT" in text:
+        return "case-timeout"
     if "Undefined Behavior" in text:
         return "miri-ub"
     if "unsupported operation" in text:
